@@ -9,7 +9,7 @@ META = {
         "technique": "Lean 4 invariant proofs over a two-actor model + differential correspondence of model and real actors + independent oracle",
     },
     "C10": {
-        "text": "Lean 4 theorems over the registry claims ledger and a model of the miner's validate_extension_declarations/extend_simple_qap_sector: a claim's term_max never decreases along any history; claims/allocations leave their tables only after expiry (or by being claimed); an extension with distinct declared claim ids succeeds only if every maintained claim's maximum term covers the new expiration, claims are dropped only in the final 30 days, and the new verified weight is the maintained space. The unchanged code does not reject a repeated claim id (finding F2): the negation is a proved concrete witness, the same history is replayed on the real miner+verifreg+datacap actors on every run and reported through known_findings.json until the fix lands. Sector scenarios (onboard a sector with two verified pieces by ProveCommitSectors3, PoSt, extend with arbitrary maintain/drop declarations) are diffed step by step against the model, plus the generic registry histories of C09.",
+        "text": "Lean 4 theorems over the registry claims ledger and a model of the miner's validate_extension_declarations/extend_simple_qap_sector: a claim's term_max never decreases along any history; claims/allocations leave their tables only after expiry (or by being claimed); an extension with distinct declared claim ids succeeds only if every maintained claim's maximum term covers the new expiration, claims are dropped only in the final 30 days, and the new verified weight is the maintained space. The unchanged code rejects neither a repeated claim id (finding F2) nor a sector listed in two declarations with different expirations (finding F2b): each negation is a proved concrete witness, both histories are replayed on the real miner+verifreg+datacap actors on every run and reported through known_findings.json until the fixes land (the model follows the source through two translator-generated flags). Sector scenarios (onboard a sector with two verified pieces by ProveCommitSectors3, PoSt, extend with arbitrary maintain/drop declarations) are diffed step by step against the model, plus the generic registry histories of C09.",
         "design_ref": "DESIGN.md §7 C09 / C10, §8 F2",
         "note": "sector_claims_inv is _partial: the cross-actor invariant is proved for extension steps from a state satisfying it, not across onboarding/termination (those run on the real actors under the oracle only). Trusted base as C09 plus the reduced sector record.",
         "technique": "Lean 4 decision-logic/invariant proofs + proved negation witness + differential correspondence on real actors + independent oracle",
